@@ -44,12 +44,23 @@ def check_one(part, p, seed):
 
 
 def _shard(item):
-    seed, n, switches = item
+    seed, n, switches, host, n_host = item
     part = new_part()
-    calls, v = hyp.search(prog.program_strategy(switches), lambda p: check_one(part, p, seed), seed, n,
-                          key=lambda p: p.source)
+    kept = []
+
+    def body(p):
+        v = check_one(part, p, seed)
+        if v is None and len(kept) < n_host and prog.nontrivial(p):
+            kept.append((p.source, list(env.ALL_CFGS)))
+        return v
+
+    calls, v = hyp.search(prog.program_strategy(switches), body, seed, n, key=lambda p: p.source)
     if v:
         part["violations"].append(reduce_violation(v))
+    elif host and kept:
+        # host dimension: the same programs converted AND run under another interpreter
+        from .. import hosts
+        hosts.inline_host_checks(part, kept, host, {}, "generated program behaves differently after conversion")
     return part
 
 
@@ -81,7 +92,12 @@ def run(report):
     for part in env.pmap(_corpus_shard, sorted(progs.items())):
         report.absorb(part)
     per = 150 if quick else 2500
-    items = [(env.sub_seed(report.seed, "C01", i), per, switches) for i in range(env.NPROC)]
+    from .. import hosts
+    others = hosts.available_other_hosts()
+    report.extra["other_hosts"] = others
+    n_host = 12 if quick else 150
+    items = [(env.sub_seed(report.seed, "C01", i), per, switches, others[i % len(others)] if others else None, n_host)
+             for i in range(env.NPROC)]
     for part in env.pmap(_shard, items):
         report.absorb(part)
     report.assumptions += [
